@@ -68,6 +68,8 @@ theorem C06_cb_once (k : Nat) (tps : List Tp) (hf : ∀ tp ∈ tps, tp.fresh) (t
     exact ⟨by omega, (fun e => nomatch e), fun _ => ⟨by omega, by omega, by omega, by omega, by omega⟩, fun _ => ⟨by omega, by omega⟩⟩
   case inCb =>
     exact ⟨by omega, (fun e => nomatch e), fun _ => ⟨by omega, by omega, by omega, by omega, by omega⟩, by omega⟩
+  case inCbN =>
+    exact ⟨by omega, (fun e => nomatch e), fun _ => ⟨by omega, by omega, by omega, by omega, by omega⟩, by omega⟩
   case done =>
     exact ⟨by omega, fun _ => by omega, fun _ => ⟨by omega, by omega, by omega, by omega, by omega⟩, fun _ => ⟨by omega, by omega⟩⟩
 
@@ -86,7 +88,7 @@ theorem C06_taskpool_wait (k : Nat) (tps : List Tp) (hf : ∀ tp ∈ tps, tp.fre
 /-- number of taskpools counted in `active_taskpools`: added (or in their callback) and not yet
     decremented, minus those decremented before being incremented (taskpools added without detector) -/
 def pendingCount (l : List Tp) : Int :=
-  (l.countP (fun tp => tp.st == .added || tp.st == .inCb) : Int) - (l.countP (fun tp => tp.st == .earlyDec) : Int)
+  (l.countP (fun tp => tp.st == .added || tp.st == .inCb || tp.st == .inCbN) : Int) - (l.countP (fun tp => tp.st == .earlyDec) : Int)
 
 theorem csum_eq_pendingCount (l : List Tp) : csum l = pendingCount l := by
   induction l with
